@@ -5,6 +5,7 @@ mod exec;
 mod fmt;
 mod grab;
 mod objs;
+mod tojson;
 mod utilx;
 
 use std::io::{BufRead, BufReader, BufWriter, Seek, SeekFrom, Write};
